@@ -79,7 +79,9 @@ def enc_path(p):
 
 VALID_PATH_FIELDS = ['a', 'foo/bar', 'a\\x20b', '\\u00e9', '\\U0001F600x', 'x\\x5Cy', 'files/a', '..', 'a//b', '-', 'a\\x2Fb']
 INVALID_PATH_FIELDS = ['/abs', '\\x2Fabs', '\\', 'a\\', 'a\\x2', 'a\\xZZ', '\\u123', '\\U0001F60', '\\y', '\\X41',
-                       '\\U00110000', '\\UFFFFFFFF', '\\U7FFFFFFF', '\\U80000000', '\\u002Fx', '\\U0000002Fx', 'a\\x2g']
+                       '\\U00110000', '\\UFFFFFFFF', '\\U7FFFFFFF', '\\U80000000', '\\u002Fx', '\\U0000002Fx', 'a\\x2g',
+                       # hex positions filled with non-ASCII decimal digits (Arabic-Indic, Devanagari, fullwidth): not hex digits
+                       'tes\\x\u0663\u0663t', '\\u00\u0969\u0969', 'b\\x0\uff13', '\\U0001F60\u0663']
 VALID_SIZES = ['0', '1', '42', '007', '+5', '-0', '1_0', '18446744073709551616', '00']
 INVALID_SIZES = ['-1', 'x', '1.0', '1e3', '', '0x10', '_1', '1_', '1__0', '+', '-', '+-1', '١٢', '1 ']
 VALID_TS = ['2017-01-01T00:00:00Z', '1999-12-31T23:59:59Z', '2020-02-29T12:00:00Z', '2017-1-1T0:0:0Z',
@@ -223,6 +225,8 @@ LINE_CLASSES = {
     'D': '- DATA b 1 MD5 aa',               # dash-escaped entry
     'Q': '- -----BEGIN PGP SIGNATURE-----', # dash-escaped armor line
     'J': 'junk line here',                  # junk
+    'W': '- - DATA c 0',                    # escaped twice: one level of unescaping leaves '- DATA c 0', not an entry
+    'X': '-DATA d 0',                       # a dash that is no dash-escape
 }
 
 
